@@ -18,8 +18,9 @@ Templates == [
   SER |-> <<"N", "CA", "C", "O", "CB", "OG">>,
   ASN |-> <<"N", "CA", "C", "O", "CB", "CG", "OD1", "ND2">>,
   TRP |-> <<"N", "CA", "C", "O", "CB", "CG", "CD1", "CD2", "NE1", "CE2", "CE3", "CZ2", "CZ3", "CH2">>,
-  GLY |-> <<"N", "CA", "C", "O">> ]
-DefAtom == [ASP |-> "CG", GLU |-> "CD", HIS |-> "CG", CYS |-> "SG", TYR |-> "OH", LYS |-> "NZ", ARG |-> "CZ"]
+  GLY |-> <<"N", "CA", "C", "O">>,
+  CTERM |-> <<"N", "CA", "C", "O", "CB", "OXT">> ]      \* backbone of a chain's last residue: the C- site sits on OXT
+DefAtom == [ASP |-> "CG", GLU |-> "CD", HIS |-> "CG", CYS |-> "SG", TYR |-> "OH", LYS |-> "NZ", ARG |-> "CZ", CTERM |-> "OXT"]
 
 Names(t) == {Templates[t][k] : k \in 1..Len(Templates[t])}
 Remaining(t, removed) == Names(t) \ removed
